@@ -54,6 +54,8 @@ func init() { register("preamble", &preambleEngine{}) }
 var preSources = []string{
 	"(f $x)", "$x", "[$x $y]", "{:a $x :b [$y $x]}", "'($x \"$x\" $NUMBER)", "(do ; $x in a comment\n $x)", "(str \"$x is\" $x)",
 	"¬$x¬", "(quote $a-b_1)", "(f $missing)", "(f $x) ; trailing $y", "`(~$x ~@$y)", "#{:a}", "(+ 1 2)", "($x)", "(let [a $x] (g a $NUMBER))",
+	// sources that BEGIN with comments spelled like preamble lines: they are comments of the program, whatever the table holds
+	";; $x 10\n;; $y \"default\"\n(list $x $y)", ";; $NUMBER 10\n(f $NUMBER)", ";; $x\n$x", ";; $missing (1 2)\n\n(f $missing $x)", "\n;; $x 1\n$x", ";; $x 1",
 }
 
 func (e *preambleEngine) generate(r *rng, n int, tier string, emit func(string)) {
